@@ -1,9 +1,16 @@
 #!/bin/bash
-# run every seeded change against the quick check of its property (scratch copies under /tmp); one line per seed
-cd /verif
-for d in seeded/*/; do s=$(basename $d); prop=${s%%_*}
-  out=$(TAILN=40 tools/run_seed.sh $s 2>&1); rc=$?
+# run every seeded change against the quick check of its property (scratch copies under /tmp); one line per seed.
+# Some changes break a property through a function that another property's check owns: those are also run against that check.
+V=$(dirname "$(dirname "$(realpath "$0")")")
+cd $V
+declare -A ALSO=( [C02_m3]=C11 [C05_m2]=C02 [C01_m2]=C02 [C04_m3]=C18 [C20_m2]=C08 )
+one() { s=$1; prop=$2
+  out=$(TAILN=60 tools/run_seed.sh $s $prop 2>&1); rc=$?
   nv=$(echo "$out" | grep -c "^VIOLATION"); nr=$(echo "$out" | grep "^VIOLATION" | grep -vc "no-failing-input-found")
-  first=$(echo "$out" | grep "^VIOLATION" | head -1 | sed 's/.*replay=\/verif\/out\/[^/]*\///' )
-  echo "$s rc=$rc violations=$nv replayed=$nr first=$first :: $(echo "$out" | grep -E "^C[0-9]+:" | tail -1 | cut -c1-90)"
+  first=$(echo "$out" | grep "^VIOLATION" | grep -v "no-failing-input-found" | head -1 | sed 's/.*replay=.*\/out\/[^/]*\///'); [ -z "$first" ] && first=$(echo "$out" | grep "^VIOLATION" | head -1 | sed 's/.*replay=.*\/out\/[^/]*\///')
+  echo "$s check=$prop rc=$rc violations=$nv replayed=$nr first=$first :: $(echo "$out" | grep -E "^C[0-9]+:" | tail -1 | cut -c1-100)"
+}
+for d in seeded/*/; do s=$(basename $d); [ -f $d/patch.diff ] || continue; prop=${s%%_*}
+  one $s $prop
+  [ -n "${ALSO[$s]}" ] && one $s ${ALSO[$s]}
 done
